@@ -52,6 +52,11 @@ func stringOperand(operand interface{}) string {
 	case int64:
 		_operand = strconv.FormatInt(operand, 10)
 	case float64:
+		if operand == 0 {
+			// negative zero (the literal -0, a -0.0 of the record) is numerically zero:
+			// it reads "0", so that it is equal to 0 as it is >= and <= 0
+			operand = 0
+		}
 		_operand = strconv.FormatFloat(operand, 'f', -1, 64)
 	case bool:
 		_operand = strconv.FormatBool(operand)
